@@ -160,7 +160,18 @@ def gen_oplist(r, acc, n_ops=None, dma_p=0.35):
             sub = r.choice(["ADD", "SUB", "MUL", "MIN", "MAX", "ABS", "LRELU", "ADD", "MUL"])
             ofm_dt = dt
             ifm_b = pool.fm(shape, layout, dt)
+            prev = ops[-1] if ops else None
+            if prev is not None and prev["t"] != "dma" and prev["ofm"].get("buf", -1) >= 0 and r.random() < 0.3:
+                pb = pool.all[prev["ofm"]["buf"]]
+                if tuple(pb["shape"]) == tuple(shape) and pb["dt"] == dt and pb["layout"] == "NHWC" and pb["tiles"][0] == pb["shape"][0] and shape[0] >= 2:
+                    # a window of the same shape over what the operation before has just written, starting a few rows further down
+                    # (same shape, overlapping bytes, different base address)
+                    sy = default_strides(shape, "NHWC", DT_BITS[dt])[0]
+                    k_ = r.randrange(0, shape[0])
+                    ifm_b = dict(pb, tiles=[pb["tiles"][0], 0, pb["tiles"][2], [pb["tiles"][3][0] + k_ * sy, 0, 0, 0]], shifted_from=pb["tiles"][3][0])
             inplace = r.random() < 0.2
+            if inplace and ifm_b.get("shifted_from") is not None:
+                ifm_b = pool.all[ifm_b["id"]]  # (in place means the very same feature map: no shifted window)
             ofm_b = ifm_b if inplace else pool.fm(shape, r.choice(layouts), ofm_dt, avoid=(ifm_b["id"],))
             if not inplace and ofm_b["id"] == ifm_b["id"]:
                 continue
@@ -186,7 +197,7 @@ def gen_oplist(r, acc, n_ops=None, dma_p=0.35):
                     op["reversed"] = False
                     h, w, c = shape
                     if (tuple(s2) in ((1, w, c), (1, 1, c)) and ifm_b["layout"] == "NHWC" and not inplace and h >= 2 and ifm_b["tiles"][0] == h
-                            and r.random() < 0.35):
+                            and ifm_b.get("shifted_from") is None and r.random() < 0.35):
                         # the second operand is a row (or a pixel) INSIDE the first one (x + x[k:k+1]): nested address ranges of one operation
                         sy = default_strides(shape, "NHWC", DT_BITS[dt])[0]
                         row = r.randrange(h)
@@ -194,6 +205,18 @@ def gen_oplist(r, acc, n_ops=None, dma_p=0.35):
                                           q=op["ifm"]["q"], buf=ifm_b["id"])
                 if r.random() < 0.3:
                     op["reversed"] = True  # IFM2 is the first operand (const - x, const >> x ...)
+            if ifm_b.get("shifted_from") is not None:
+                # the shifted window reaches past the end of the buffer it came from: the operation itself must stay well formed (its own
+                # OFM / IFM2 may not share bytes with the window); otherwise fall back to the unshifted feature map
+                def rng(f):
+                    if f is None or f.get("buf") == -1:
+                        return None
+                    a_ = min(x_ for x_ in f["tiles"][3][:1])
+                    return (f["region"], a_, a_ + fm_bytes(f["shape"], f["layout"], DT_BITS[f["dt"]]) + 64)
+                wi = rng(op["ifm"])
+                clash = any(o_ is not None and o_[0] == wi[0] and o_[1] < wi[2] and wi[1] < o_[2] for o_ in (rng(op["ofm"]), rng(op.get("ifm2"))))
+                if clash or op["ofm"]["tiles"][0] != op["ofm"]["shape"][0]:
+                    op["ifm"]["tiles"] = [shape[0], 0, shape[1], [ifm_b["shifted_from"], 0, 0, 0]]
             ops.append(op)
         elif x < dma_p + 0.45:
             # pooling
